@@ -98,6 +98,7 @@ func KeyStr(s string) string {
 // lookup; none of them may change what the object answers afterwards.
 func TouchGetters(b band.Band) {
 	defer func() { recover() }()
+	ScribbleCheck(b) // every slice / pointer a getter returns is overwritten by the caller
 	b.Name()
 	for _, v := range []string{band.LoRaWAN_1_0_0, band.LoRaWAN_1_0_2, band.LoRaWAN_1_0_3, band.LoRaWAN_1_0_4, band.LoRaWAN_1_1_0, "latest"} {
 		b.GetCFList(v)
